@@ -45,10 +45,11 @@ THEOREMS = [
     "BeyondVerif.C02.sessionRun_pure",
     "BeyondVerif.C02.session_history_independent",
     "BeyondVerif.C02.session_order_independent",
-    "BeyondVerif.C02.KeyOK_of_text_determines_tt",
-    "BeyondVerif.C02.session_stale",
+    "BeyondVerif.C02.nutation_series_key_sound",
+    "BeyondVerif.C02.nutCorrected_of_record",
     "BeyondVerif.C02W.text_keyed_memo_history_dependent",
     "BeyondVerif.C02W.text_keyed_memo_order_dependent",
+    "BeyondVerif.C02W.full_key_memo_sound",
 ]
 LEVEL_TEXT = ("Lean theorems over R about a model of beyond/frames whose formulas (rot1/2/3, precession/nutation arguments, GMST, ERA, rate, CIO matrix, "
               "constant matrices, station matrix) are translated from the Python AST on every run: every rot and every product of rots is a proper rotation "
@@ -57,10 +58,10 @@ LEVEL_TEXT = ("Lean theorems over R about a model of beyond/frames whose formula
               "A->B->C = A->C and A->B->A = 1 for the convert_to loop along every link history grown leaf by leaf (induction; any carrier with an "
               "associative product), instantiated for the model's orientConvert with paths from the C20 routing model. "
               "History independence: the model of a process carries the memoizer of beyond/utils/memoize.py as a state machine (Memo.run) and the one date-dependent memo "
-              "the frames have (iau1980._nutation, keyed by the text of the date); Memo.sound_iff: a memoized function answers every history like the bare function iff its key "
-              "determines its value; session_history_independent: for every history of earlier conversions the result of a conversion is callPure = a function of (instant + EOP "
-              "record of the date, frame graph, the two frames) alone whenever the text of a date determines its TT instant; session_stale + Witness: otherwise the second call gets "
-              "the first call's nutation (the model follows the code there). "
+              "the frames have (iau1980._nutation_series, keyed since deb035a by (TT century, terms): all the series reads); Memo.sound_iff: a memoized function answers every history "
+              "like the bare function iff its key determines its value; session_history_independent (unconditional): for every history of earlier conversions the result of a conversion "
+              "is callPure = a function of (instant + EOP record of the date, frame graph, the two frames) alone; Witness: the former key (text of the date) made it false. "
+              "Orbit-attached local orbital frames are in the model as the code builds them (LofSpec: a copy of the reference converted to the parent, at its own date when it has no propagator). "
               "The hand-written glue (which rot in which order, EOP units, series folds, centres, Frame.transform, the memo) is tied by differential correspondence on HISTORIES of calls "
               "under five EOP configurations sharing their instants.")
 LEVEL_NOTE = ("R -> double gap and time-scale arithmetic (Date -> TT/UT1 centuries; the model is given text + record offsets, reconciled to 2 ulp of the JD with Date.change_scale) are outside the theorems; "
@@ -87,8 +88,9 @@ ASSUMPTIONS = [
     "provider_isRotation + const_matrices_invertible + providers_match give this for the built-in providers, the assembly into EdgesOK for `edge` is not done in Lean",
     "cioMat_isRotation needs X^2+Y^2 < 1 (in 1973-2017: < 1e-5)",
     "velocity of body-centred frames (Moon, Sun) depends on the body's own velocity, a +-1 day difference quotient (C18): excluded from the velocity oracle",
-    "session_history_independent assumes KeyOK: dates with the same text have the same TT instant (KeyOK_of_text_determines_tt: dates given in TAI/TT/GPS/TDB, or in UTC under EOP sources that agree "
-    "on TAI-UTC); a Date is created under the configuration it is used under (a Date keeps the record it was created with, change_scale looks the new scale up again: C03)",
+    "a Date is created under the configuration it is used under (a Date keeps the record it was created with, change_scale looks the new scale up again: C03)",
+    "the axes of a QSW/TNW frame attached to a reference WITHOUT propagator are built from the reference converted to the parent frame at the reference's own date, not at the date of the conversion "
+    "(Frame.transform reads orbit.date): the model follows the code; for a reference in TEME this is 3e-8 rad per hour of distance, for one in an Earth-fixed frame the axes stay frozen while the origin turns",
     "a frame name means its latest registration (orbit2frame / create_station with a name already taken override it, with a warning): histories re-register names and expect the new specification",
 ]
 NOT_COVERED = [
@@ -97,23 +99,25 @@ NOT_COVERED = [
     "IAU-1980 chain vs IAU-2010 chain < 0.1 arcsec: oracle only (106- and ~3000-term series; no theorem)",
     "EOP file readers (Finals, Finals2000A, TaiUtc) on the real IERS files: oracle only (independent column parse)",
     "d(GMST)/dt vs the constant in rate(): not proved (DESIGN earth_rate_consistent); the oracle's finite-difference check covers it to 1e-3 m/s",
-    "iau1980.nutation / equinox / sideral with eop_correction=True (not used by the frame providers): oracle only; history dependent (known finding C02-nutation-memo-eop)",
+    "iau1980.nutation with eop_correction=True (not used by the frame providers): correspondence (c02nutc: series + the eop_correction tail translated from the source) and oracle; no theorem beyond nutCorrected_of_record",
 ]
 OPEN = [
     "transform_roundtrip for frames with different centres: only the algebraic core (affine_roundtrip) and the same-centre case are proved; "
     "the antisymmetry of Center.convert_to across two target orientations is checked by correspondence and oracle only",
     "EdgesOK for the model's concrete `edge` function is a hypothesis of orientConvert_compose/_inverse (see assumptions)",
     "velocity_is_derivative is proved for R(t) = rot3(-theta(t)) (the two Earth-rotation edges); the slow precession/nutation/polar-motion rates are omitted by the code by design (5e-5 m/s) and by the theorem",
-    "history independence without KeyOK is false for the code as it is (session_stale; UTC texts under EOP sources that disagree on TAI-UTC: 2e-10 rad through the frames, 2.4e-7 rad through "
-    "iau1980.nutation(date)): session_history_independent is the `_partial` statement, the unconditional one needs proposed_fixes/C02-nutation-memo-eop.diff",
     "the memo machine (sessionRun) models Orientation.convert_to; which memo keys a whole Frame.transform touches (centre links, orbit-attached providers converting their reference) is not modelled — "
-    "irrelevant under KeyOK by the theorem, so Frame.transform histories are generated inside KeyOK",
+    "irrelevant by session_history_independent (the memo is invisible), so Frame.transform histories are compared call by call",
+    "'the reference handed to orbit2frame is left unchanged' and 'a repeated conversion gives the same numbers' hold in the model by construction (conversions are functions of read-only specifications); "
+    "for the code they are checked by correspondence and oracle on every kind of reference, not proved about the Python objects",
 ]
 RULE = ("correspondence: the real code is driven through HISTORIES of conversions in one process, nothing of the library reset in between: (A1) fresh instants under each of five EOP configurations "
         "(real IERS files through SimpleEopDatabase / zero EOP / EOP missing with policy pass / a second registered database selected by eop.dbname / EopDb.get patched), (A2) the SAME instants under "
-        "several configurations in varying orders, each (configuration, instant) visited repeatedly, with fresh and re-used Date objects and repeated requests — UTC texts under the four configurations that agree "
-        "on TAI-UTC, TAI texts under all five, (A3) UTC texts under configurations that disagree on TAI-UTC as ONE request to the model carrying the _nutation memo (c02seq), (A4) the same names registered "
-        "again with another specification and the same instants again; the model is given the date as a pure function of (text of the date, EOP record of the configuration known independently of the library's "
+        "all five configurations in varying orders, each (configuration, instant) visited repeatedly, with fresh and re-used Date objects and repeated requests — UTC texts "
+        "and TAI texts under all five, (A3) a history of Orientation.convert_to calls as ONE request to the model carrying the _nutation_series memo (c02seq), (A4) the same names registered "
+        "again with another specification and the same instants again, (A5) frames attached (orbit2frame; reference frame axes / QSW / TNW; default and other parents) to EVERY KIND of reference - plain StateVector "
+        "without propagator, Orbit with Kepler / J2 / numerical / SGP4 propagator, Ephem; in the parent frame and in others (TEME, GCRF, MOD, ITRF...); every form - every conversion made three times (identical "
+        "results required), the references compared afterwards with what the caller handed in (values, form, frame, date), model inputs from twins of the references; iau1980.nutation(date) with EOP corrections (c02nutc); the model is given the date as a pure function of (text of the date, EOP record of the configuration known independently of the library's "
         "readers) and its own series at that TT century; Orientation.convert_to and Frame.transform on random ordered pairs of the frames of a SCENARIO: a specification (where each centre is, how each orientation "
         "is defined) realised through the public API (create_station, solarsystem.get_frame, orbit2frame) while the model inputs (links, provider matrices, offsets) are derived from the specification with "
         "independent numpy formulas: 10 built-ins, station, equatorial station, Moon-centred, orbit-attached inertial/QSW/TNW, nested chaser, lunar orbiter, point given in a station frame, StateVector held in "
@@ -125,7 +129,8 @@ RULE = ("correspondence: the real code is driven through HISTORIES of conversion
         "date.eop = that record, PEF->TOD angle vs GMST82 + independent equation of the equinoxes (own 106-term series, kinematic terms from 1997-02-27) to 1 mas, TIRF->CIRF vs ERA to 1 mas, rate block vs lod, "
         "polar motion 1980/2010 vs x, y, nutation (with and without dPsi/dEps), TEME equinox, precession, CIO X - dX / Y - dY equal across configurations — on fresh instants (matrix level) and on the same "
         "instants under all five configurations in varying orders through StateVector.copy (family suffix :after-other-configuration); 1980 vs 2010 < 0.1 arcsec, EOP reader vs independent parse, attached-frame "
-        "independence of the StateVector form, the meaning of 'attached to X' with hand-written expected values before and after re-registration of the names; "
+        "independence of the StateVector form, the meaning of 'attached to X' with hand-written expected values before and after re-registration of the names, and for every kind of reference "
+        "(origin both ways, round trip, same conversion twice, reference object unchanged); "
         "a conversion between connected frames that raises is a failing input")
 
 BUILTIN = ["EME2000", "MOD", "TOD", "TEME", "PEF", "ITRF", "TIRF", "CIRF", "GCRF", "G50"]
@@ -160,8 +165,17 @@ def extract(ctx):
     for r in ("rot1", "rot2", "rot3"):
         parts.append(py2lean.translate_function(mx, r, ["theta"], r, mat3=True))
     parts.append(py2lean.translate_function(i80, "_precesion", ["t"], "precAngles80"))
-    parts.append(py2lean.translate_slice(i80, "_nutation", ["ttt"], ["epsilon_bar", "m_m", "m_s", "u_m_m", "d_s", "om_m"], "nutArgs80",
+    parts.append(py2lean.translate_slice(i80, "_nutation_series", ["ttt"], ["epsilon_bar", "m_m", "m_s", "u_m_m", "d_s", "om_m"], "nutArgs80",
                                          result_expr="[epsilon_bar, m_m, m_s, u_m_m, d_s, om_m]", stop_before=is_for))
+    # the tail of _nutation: `if eop_correction: delta_eps += date.eop.deps / 3600000.0; delta_psi += date.eop.dpsi / 3600000.0`
+    nut = py2lean.find_function(ast.parse(open(i80).read()), "_nutation")
+    tail = [st for st in nut.body if isinstance(st, ast.If) and isinstance(st.test, ast.Name) and st.test.id == "eop_correction"]
+    if len(tail) != 1 or any(not (isinstance(x, ast.AugAssign) and isinstance(x.op, ast.Add) and isinstance(x.target, ast.Name)) for x in tail[0].body) or tail[0].orelse:
+        raise py2lean.Untranslatable("_nutation: the eop_correction tail is not `if eop_correction: <name> += <expr> ...`")
+    corr = {x.target.id: py2lean.translate_expr(x.value, consts={"date.eop.dpsi": "dpsi_mas", "date.eop.deps": "deps_mas"}) for x in tail[0].body}
+    if set(corr) != {"delta_psi", "delta_eps"}:
+        raise py2lean.Untranslatable("_nutation: the eop_correction tail does not correct exactly delta_psi and delta_eps")
+    parts.append(f"/-- what `_nutation(date, True, terms)` adds to (Δψ, Δε) of the series, degrees -/\ndef nutCorr80 (dpsi_mas deps_mas : R) : List R :=\n  [{corr['delta_psi']}, {corr['delta_eps']}]\n")
     parts.append(py2lean.translate_slice(i80, "_sideral", ["t"], ["theta"], "gmstDeg80", stop_before=is_if))
     parts.append(py2lean.translate_function(i80, "rate", ["lod_ms"], "rate80", consts={"date.eop.lod": "lod_ms"}))
     parts.append(py2lean.translate_slice(i10, "_earth_orientation", ["ttt"], ["s_prime"], "sPrime10"))
@@ -525,6 +539,7 @@ class Scenario:
         self.ohist = [(ITRF, 10), (10, ITRF), (EME, 11), (EME, 12), (EME, 14), (EME, 13)]
         self.chist = [(1, 0), (4, 0), (2, 0), (5, 2), (6, 3), (7, 1), (8, 0)]   # Moon (3,0) is inserted where the library created it: first
         self.names = {k: n(k) for k in ("Sta", "Equ", "Ai", "Aq", "At", "Ci", "Ct", "Li", "Lq", "Si", "Ki")}
+        self.chist_full = [(3, 0)] + self.chist
 
     def model_inputs(self, date):
         """orientation extras [(child, parent, 3x3)], centre links {child: (parent, orientation node, offset6)} at the date"""
@@ -536,7 +551,7 @@ class Scenario:
               (13, self.EME, np_lof(False, self.pvL).T), (14, self.EME, np_lof(True, self.relC).T)]
         cl = {1: (0, self.ITRF, np_geodetic(lat, lon, alt)), 2: (0, self.EME, pvA), 3: (0, self.EME, np.array(MoonPropagator.propagate(date))),
               4: (0, self.ITRF, self.equ_c), 5: (2, self.EME, self.relC), 6: (3, self.EME, self.pvL), 7: (1, 10, self.pvS), 8: (0, self.EME, self.pvK)}
-        return ex, cl
+        return ex, cl, []
 
 
 _scenarios = []
@@ -546,6 +561,158 @@ def scenarios(rng, idx, k=2):
     while len(_scenarios) < k:
         _scenarios.append(Scenario(rng, idx, len(_scenarios)))
     return _scenarios
+
+
+# ---------------------------------------------------------------- orbit-attached frames built from every kind of reference
+
+ISS_TLE = """ISS (ZARYA)
+1 25544U 98067A   08264.51782528 -.00002182  00000-0 -11606-4 0  2927
+2 25544  51.6416 247.4627 0006703 130.5360 325.0288 15.72125391563537"""
+INERTIAL_FORMS = ["cartesian", "keplerian", "spherical", "equinoctial", "keplerian_circular", "keplerian_mean", "keplerian_eccentric", "cylindrical"]
+# (kind of reference, frames it may be expressed in, forms it may be held in)
+REF_KINDS = [("static", ["EME2000", "TEME", "GCRF", "MOD", "TOD", "CIRF"], INERTIAL_FORMS), ("static", ["ITRF", "PEF", "TIRF"], ["cartesian", "spherical", "cylindrical"]),
+             ("kepler", ["EME2000", "TEME", "GCRF", "MOD"], INERTIAL_FORMS), ("j2", ["EME2000", "TEME", "GCRF"], INERTIAL_FORMS),
+             ("num", ["EME2000"], ["cartesian", "keplerian", "spherical"]), ("tle", ["TEME"], ["tle"]), ("ephem", ["EME2000", "TEME", "GCRF", "MOD"], INERTIAL_FORMS)]
+
+
+def ref_snapshot(ref):
+    """values, form, frame, date of a reference (of every point of an Ephem)"""
+    import numpy as np
+    from beyond.orbits.ephem import Ephem
+    pts = list(ref) if isinstance(ref, Ephem) else [ref]
+    return [(tuple(float(x) for x in np.asarray(p)), p.form.name, p.frame.name, str(p.date)) for p in pts]
+
+
+class RefScenario:
+    """Frames attached (orbit2frame) to EVERY KIND of reference: a plain StateVector without propagator, an Orbit with the Kepler / J2 /
+    numerical / SGP4 propagator, an Ephem; expressed in the parent frame or in another one; held in every form; orientation of the
+    reference frame / QSW / TNW; default and non-default parent.  Specification: the frame is centred on the point the reference
+    occupies at the date, its QSW / TNW axes are those of that point's position and velocity expressed in the parent frame.  The model
+    inputs come from a TWIN of each reference (a separate object built from the same numbers, never handed to orbit2frame), so the
+    references the library holds are only ever touched by the library — and must be found unchanged (values, form, frame, date).
+    All instants lie within 10..90 min after the epoch of the TLE (2008-09-20)."""
+
+    def __init__(self, rng, idx, tag, n):
+        import logging
+        import numpy as np
+        from beyond.dates import timedelta
+        from beyond.io.tle import Tle
+        from beyond.orbits import StateVector
+        from beyond.propagators.kepler import Kepler
+        from beyond.propagators.j2 import J2
+        from beyond.propagators.keplernum import KeplerNum
+        from beyond.env.solarsystem import get_body
+        from beyond.frames.frames import orbit2frame, get_frame
+        logging.getLogger("beyond.frames.frames").setLevel(logging.ERROR)
+        self.idx, self.tag = idx, tag
+        self.epoch = Tle(ISS_TLE).orbit().date
+        cart0 = np.array(Tle(ISS_TLE).orbit().propagate(self.epoch).copy(form="cartesian"))
+        # the date object the static references carry was created here, under the 'real' configuration: conversions AT that date read its record
+        ed, es = self.epoch.d, round(self.epoch.s, 6)
+        self.epoch_rec = indep_record("real", ed + es / 86400.0)
+        self.epoch_t = pure_times("UTC", ed, es, self.epoch_rec)
+        lib_tt, lib_ut1 = self.epoch.change_scale("TT"), self.epoch.change_scale("UT1")
+        if abs(lib_ut1.jd - self.epoch_t["jdut1"]) <= 1e-9 and abs(lib_tt.julian_century - self.epoch_t["ttt"]) <= 1e-13:
+            self.epoch_t.update(jdut1=lib_ut1.jd, tut1=lib_ut1.julian_century, ttt=lib_tt.julian_century)
+        catalogue = [(k, g, f) for k, gs, fs in REF_KINDS for g in gs for f in fs]
+        picks = rng.sample(catalogue, min(n, len(catalogue)))
+        # every kind, and the static reference outside its parent frame, at least once
+        for must in [("static", "TEME", "cartesian"), ("static", "ITRF", "spherical"), ("kepler", "TEME", "keplerian"), ("j2", "EME2000", "equinoctial"), ("num", "EME2000", "cartesian"),
+                     ("tle", "TEME", "tle"), ("ephem", "MOD", "keplerian")]:
+            if not any(p[0] == must[0] and (must[0] != "static" or (p[1] in ("ITRF", "PEF", "TIRF")) == (must[1] == "ITRF")) for p in picks):
+                picks.append(must)
+
+        def build(kind, G, form, cart):
+            if kind == "tle":
+                return Tle(ISS_TLE).orbit()
+            base = StateVector(cart, self.epoch, "cartesian", G).copy(form=form)
+            if kind == "static":
+                return base
+            if kind == "kepler":
+                return base.as_orbit(Kepler())
+            if kind == "j2":
+                return base.as_orbit(J2())
+            if kind == "num":
+                return base.as_orbit(KeplerNum(timedelta(seconds=600), get_body("Earth"), frame=G))
+            if kind == "ephem":
+                return base.as_orbit(Kepler()).ephem(start=self.epoch, stop=timedelta(hours=2), step=timedelta(seconds=180))
+            raise ValueError(kind)
+
+        self.refs, self.frames, self.ohist, self.chist, self.lofs_static = [], [(nm, i, 0, nm) for nm, i in idx.items()], [], [], []
+        node, cnode = 10, 1
+        for k, (kind, G, form) in enumerate(picks):
+            dv = np.array([rng.uniform(-5e4, 5e4) for _ in range(3)] + [rng.uniform(-20, 20) for _ in range(3)])
+            if G in ("ITRF", "PEF", "TIRF"):
+                cart = np.array([rng.uniform(3e6, 6e6), rng.uniform(-5e6, 5e6), rng.uniform(-4e6, 4e6), rng.uniform(-300, 300), rng.uniform(-300, 300), rng.uniform(-100, 100)])
+            else:
+                cart = cart0 + dv
+            ref, twin = build(kind, G, form, cart), build(kind, G, form, cart)
+            parent = "EME2000" if rng.random() < 0.7 else rng.choice(["GCRF", "MOD", "TEME"])
+            entry = {"kind": kind, "G": G, "form": form, "ref": ref, "twin": twin, "snap": ref_snapshot(ref), "cls": f"ref-{kind}-{G}-{form}", "frames": []}
+            for ori in (None, "QSW", "TNW"):
+                name = f"C02r{tag}k{k}{ori or 'i'}"
+                if ori is None:
+                    orbit2frame(name, ref, exists_warning=False)
+                    fr = (name, idx[G], cnode, f"ref-{kind}-{G}-{form}:inert")
+                else:
+                    orbit2frame(name, ref, orientation=ori, parent=get_frame(parent), exists_warning=False)
+                    fr = (name, node, cnode, f"ref-{kind}-{G}-{form}:{ori}-below-{parent}")
+                    self.ohist.append((idx[parent], node))
+                    entry.setdefault("lofs", []).append((node, idx[parent], 1 if ori == "TNW" else 0))
+                    node += 1
+                self.chist.append((cnode, 0))
+                entry["frames"].append(fr)
+                entry.setdefault("cnodes", []).append(cnode)
+                cnode += 1
+                self.frames.append(fr)
+            self.refs.append(entry)
+        self.chist_full = list(self.chist)
+
+    def rand_instant(self, rng):
+        from beyond.dates import timedelta
+        t = self.epoch + timedelta(seconds=round(rng.uniform(600, 5400), rng.choice([0, 3])))
+        return t.d, round(t.s, 6)
+
+    def point(self, entry, date):
+        """cartesian coordinates, in its frame G, of the point the reference occupies at the date — from the twin"""
+        import numpy as np
+        tw = entry["twin"]
+        p = tw.propagate(date) if hasattr(tw, "propagate") else tw
+        if p.frame.name != entry["G"]:
+            raise RuntimeError(f"twin of {entry['cls']} answers in {p.frame.name}")
+        return np.array(p.copy(form="cartesian"))
+
+    def model_inputs(self, date):
+        cl, lofs = {}, []
+        for e in self.refs:
+            pv = self.point(e, date)
+            for c in e["cnodes"]:
+                cl[c] = (0, self.idx[e["G"]], pv)
+            for node, par, tnw in e.get("lofs", []):
+                # a reference without propagator is converted to the parent at ITS OWN date (that is what the code does)
+                lofs.append((node, par, tnw, self.idx[e["G"]], pv, e["kind"] == "static"))
+        return [], cl, lofs
+
+    def check_untouched(self, out, where, inp):
+        """the references handed to orbit2frame by the caller are what they were: values, form, frame, date"""
+        for e in self.refs:
+            out.count(key=("untouched", e["cls"], where), kind="reference-untouched", ref=e["kind"])
+            now = ref_snapshot(e["ref"])
+            if now != e["snap"]:
+                bad = next(((a, b) for a, b in zip(now, e["snap"]) if a != b), (now[:1], e["snap"][:1]))
+                out.fail(f"reference-untouched:{e['cls']}", "a reference state handed to orbit2frame was modified by converting to / from the frame attached to it (values, form, frame or date)",
+                         dict(inp, reference=e["cls"], after=where), observed=str(bad[0])[:300], expected=str(bad[1])[:300], violates_property=True)
+                e["snap"] = now      # reported once
+
+
+_ref_scenarios = {}
+
+
+def ref_scenario(rng, idx, tag, n):
+    if tag not in _ref_scenarios:
+        set_eop("real")
+        _ref_scenarios[tag] = RefScenario(rng, idx, tag, n)
+    return _ref_scenarios[tag]
 
 
 # ---------------------------------------------------------------- independent formulas (oracle only)
@@ -901,6 +1068,7 @@ def oracle(ctx, widened):
         if mode in ("real", "zero", "missing"):
             attached_oracle(out, rng, scs, mode, 60 if big else 8)
     history_oracle(out, rng, big)
+    reference_oracle(out, rng, big)
     # the same names registered again with another specification, the same instants before and after: "attached to X" follows the new X
     set_eop("real")
     insts = [rand_ds(rng) for _ in range(3)]
@@ -949,6 +1117,46 @@ def attached_oracle(out, rng, scs, mode, n, instants=None, kind=""):
                 if not ok:
                     out.fail(f"attached-{name}:{cls}{kind}", f"frame attached to a state given in {G}: {name} check fails (the reference is the origin; X + d is seen at d / R d)",
                              dict(inp, d=list(map(float, d))), observed=list(map(float, got)), expected=list(map(float, exp)))
+
+
+def reference_oracle(out, rng, big):
+    """Frames attached to every kind of reference (plain StateVector, Orbit with Kepler / J2 / numerical / SGP4 propagator, Ephem; in the
+    parent frame and in others; every form), used repeatedly, on the real API with expected values written by hand: the reference is
+    the origin (both ways), a round trip is the identity, the same conversion made again gives the same numbers, and the reference
+    object the caller handed to orbit2frame is unchanged afterwards (values, form, frame, date)."""
+    import numpy as np
+    from beyond.dates import Date
+    from beyond.orbits import StateVector
+    rsc = ref_scenario(rng, {n: i for i, n in enumerate(orient_names())}, 0, 16 if big else 6)
+    insts = [rsc.rand_instant(rng) for _ in range(3 if big else 1)]
+    for rnd in range(2 if big else 1):
+        for mode in rng.sample(list(MODES), 3 if big else 2):
+            set_eop(mode)
+            for d, s in insts:
+                date = Date(d, s)
+                probe = np.array(make_orbit(rand_kepl(rng), date).copy(form="cartesian"))
+                for e in rsc.refs:
+                    X = rsc.point(e, date)
+                    for F, _, _, cls in e["frames"]:
+                        inert = cls.endswith(":inert")
+                        inp = {"eop": mode, "date": f"Date({d}, {s!r})", "attached_frame": F, "reference": e["cls"], "reference_point": list(map(float, X)), "given_in": e["G"]}
+                        tp = 1e-5 + 1e-14 * (np.abs(X[:3]).max() + 4e8)
+                        checks = [("origin", lambda: np.array(StateVector(X, date, "cartesian", e["G"]).copy(frame=F)), np.zeros(6), inert),
+                                  ("origin-back", lambda: np.array(StateVector(np.zeros(6), date, "cartesian", F).copy(frame=e["G"])), X, inert),
+                                  ("roundtrip", lambda: np.array(StateVector(probe, date, "cartesian", "EME2000").copy(frame=F).copy(frame="EME2000")), probe, True)]
+                        for name, fn, exp, with_vel in checks:
+                            out.count(key=("refattached", name, mode, F, d, s, rnd), kind="attached-" + name, cls="ref-" + e["kind"], eop=mode)
+                            try:
+                                got, again = fn(), fn()
+                            except Exception as ex:
+                                out.fail(f"attached-{name}:{cls}", f"conversion to/from a frame attached to a reference ({e['cls']}) raised {type(ex).__name__}: {ex}", inp, observed="exception", expected=list(map(float, exp)))
+                                continue
+                            if not np.array_equal(got, again):
+                                out.fail(f"repeated-conversion:{cls}", "the same conversion, made twice, gives two results", dict(inp, check=name), observed=list(map(float, again)), expected=list(map(float, got)))
+                            if not (np.all(np.abs(got[:3] - exp[:3]) <= tp) and (not with_vel or np.all(np.abs(got[3:] - exp[3:]) <= 1e-7))):
+                                out.fail(f"attached-{name}:{cls}", f"frame attached to a reference ({e['cls']}): {name} check fails", inp, observed=list(map(float, got)), expected=list(map(float, exp)))
+                rsc.check_untouched(out, f"Date({d}, {s!r}) {mode}", {"eop": mode, "date": f"Date({d}, {s!r})"})
+    set_eop("real")
 
 
 _form_frames = {}
@@ -1053,7 +1261,7 @@ class Visit:
     internals before them — then what the model is given is collected: the date arguments as a pure function of the TEXT of the
     date and the independently known EOP record of the current configuration (`pure_times`), the frame specification at the date."""
 
-    def __init__(self, out, rng, sc, mode, scale, d, s, s_utc, date, nconv, nxf, kind, orient_only=None):
+    def __init__(self, out, rng, sc, mode, scale, d, s, s_utc, date, nconv, nxf, kind, orient_only=None, twice=False):
         import numpy as np
         from beyond.frames import iau1980, iau2010
         from beyond.frames.frames import get_frame
@@ -1099,6 +1307,14 @@ class Visit:
                 continue
             try:
                 res = np.array(sa.copy(frame=fb[0]))
+                if twice:
+                    # the same request again, and once more after going elsewhere: a conversion is a function of its inputs
+                    again = np.array(sa.copy(frame=fb[0]))
+                    sa.copy(frame=rng.choice(sc.frames)[0])
+                    third = np.array(sa.copy(frame=fb[0]))
+                    if not (np.array_equal(res, again) and np.array_equal(res, third)):
+                        out.fail(f"repeated-conversion:{fa[3]}>{fb[3]}", "the same conversion of the same state, repeated, gives another result", dict(inp, state=list(map(float, sa))),
+                                 observed=[list(map(float, again)), list(map(float, third))], expected=list(map(float, res)), violates_property=True)
             except Exception as e:
                 res = f"raised {type(e).__name__}: {e}"
             self.xf.append((fa, fb, np.array(sa), res))
@@ -1126,15 +1342,18 @@ class Visit:
         if float(date.d) != t["day"]:
             out.fail("date-day", "date.d is not the day of the text", {"date": self.text}, observed=float(date.d), expected=t["day"])
         self.t = t
+        self.lib_nutc = iau1980.nutation(date)          # public, eop_correction=True
         if orient_only is None:
-            self.ex, self.cl = sc.model_inputs(date)
+            self.ex, self.cl, self.lofs = sc.model_inputs(date)
+            if hasattr(sc, "check_untouched"):
+                sc.check_untouched(out, self.text + " " + mode, {"eop": mode, "date": self.text})
             # the memoized / series functions as the library answers them NOW (after the conversions)
             self.lib_nut = {n: iau1980._nutation(date, False, n) for n in (106, 4)}
             self.lib_xys = iau2010._xysxy2(date) if kind != "fresh" or rng.random() < 0.3 else None
 
-    def D(self, ser80, ser10):
+    def D(self, ser80, ser10, t=None, r=None):
         """the 18 date floats of the model: times and record from the text + configuration, series from the MODEL at the TT century"""
-        t, r = self.t, self.rec
+        t, r = t or self.t, r or self.rec
         n106, n4, xys = ser80[106][t["ttt"]], ser80[4][t["ttt"]], ser10[t["ttt"]]
         return fl([t["ttt"], t["tut1"], t["jdut1"], t["day"], r["x"], r["y"], r["dx"], r["dy"], r["lod"], n106[1], n106[2], n4[1], n4[2], xys[0], xys[1], xys[2], n106[0], n4[0]])
 
@@ -1210,11 +1429,10 @@ def correspondence(ctx):
         for _ in range(ctx.n(14, 600) if mode == "real" else ctx.n(5, 150) if mode in ("zero", "missing") else ctx.n(3, 80)):
             d, s = rand_ds(rng) if rng.random() < 0.9 or mode in ("altdb", "patched") else rand_ds(rng, 57800, 58800)
             visits.append(Visit(out, rng, rng.choice(scs), mode, "UTC", d, s, s, Date(d, s), 4, 6, "fresh"))
-    # A2. the SAME instants under several configurations in one process, varying orders, repeated requests.  Histories in which the key of
-    # the one date-dependent memo of the code (iau1980._nutation: text of the date) determines its value (theorem session_history_independent):
-    # UTC texts under the four configurations that agree on TAI-UTC, TAI texts under all five.  The model is asked call by call,
-    # statelessly: by the theorem the history does not matter.
-    for scale, modes in (("UTC", [m for m in MODES if m != "missing"]), ("TAI", list(MODES))):
+    # A2. the SAME instants under all five configurations in one process, varying orders, repeated requests: UTC texts (TAI-UTC, hence the
+    # TT instant of the text, differs under 'missing') and TAI texts.  The model is asked call by call, statelessly: by the theorem
+    # session_history_independent the history does not matter.
+    for scale, modes in (("UTC", list(MODES)), ("TAI", list(MODES))):
         held = {}
         for mode, sub in history_plan(rng, scale, ctx.n(3, 12), ctx.n(2, 4), modes):
             set_eop(mode)
@@ -1222,9 +1440,9 @@ def correspondence(ctx):
                 date = held[(mode, i)] if (mode, i) in held and rng.random() < 0.3 else Date(d, s, scale=scale)
                 held[(mode, i)] = date
                 visits.append(Visit(out, rng, rng.choice(scs), mode, scale, d, s, s_utc, date, 3, 3, "shared-" + scale))
-    # A3. UTC texts shared by configurations that DISAGREE on TAI-UTC ('missing': 0 s): the TT instant of the text differs, the key of
-    # the _nutation memo does not determine its value, the code is history dependent (theorem session_stale, ~2e-10 rad) — the model
-    # follows it with the memo inside (sessionRun, one c02seq request for the whole history).  Orientation level, built-ins + station.
+    # A3. a history of Orientation.convert_to calls as ONE request to the model with the _nutation_series memo inside (sessionRun, c02seq):
+    # UTC texts shared by configurations that disagree on TAI-UTC (before deb035a the code was history dependent here, ~2e-10 rad).
+    # Orientation level, built-ins + station.
     sc = rng.choice(scs)
     seq = []
     for mode, sub in history_plan(rng, "UTC", ctx.n(3, 8), ctx.n(2, 4), ["real", "missing", "zero", "patched"]):
@@ -1233,6 +1451,17 @@ def correspondence(ctx):
             v = Visit(out, rng, sc, mode, "UTC", d, s, s_utc, Date(d, s), 3, 0, "shared-UTC-mixed-TAI-UTC", orient_only=set(range(11)))
             v.text_id = i
             seq.append(v)
+    # A5. frames attached to every kind of reference (RefScenario), the same instants under several configurations, every conversion made
+    # three times; afterwards the references are what the caller handed in
+    rsc = ref_scenario(rng, idx, 0, ctx.n(6, 16))
+    rinst = [rsc.rand_instant(rng) for _ in range(ctx.n(3, 10))]
+    for rnd in range(ctx.n(1, 2)):
+        order = list(MODES)
+        rng.shuffle(order)
+        for mode in order[:ctx.n(3, 4)]:
+            set_eop(mode)
+            for d, s_ in rng.sample(rinst, ctx.n(2, 4)):
+                visits.append(Visit(out, rng, rsc, mode, "UTC", d, s_, s_, Date(d, s_), 0, ctx.n(8, 10), "attached-to-reference", twice=True))
     # A4. the same NAMES registered again with another specification (other station coordinates, reference orbits, offsets), then the
     # same instants under the same configurations as before: a conversion follows what the name means NOW
     old = scs[0]
@@ -1244,7 +1473,7 @@ def correspondence(ctx):
         visits.append(Visit(out, rng, _scenarios[0], v.mode, v.scale, v.d, v.s, v.s_utc, Date(v.d, v.s, scale=v.scale), 3, 4, "re-registered"))
     set_eop("real")
     # ---- phase B: the series of the model at every TT century in play (one batched request per table)
-    ttts = sorted({v.t["ttt"] for v in visits + seq})
+    ttts = sorted({v.t["ttt"] for v in visits + seq} | {rsc.epoch_t["ttt"]})
     drv = core.Driver(ID)
     sreq = [" ".join(["c02ser80", str(len(ttts))] + fl(ttts) + [str(n)] + [t for r in t51[:n] for t in fl(r)]) for n in (106, 4)]
     sreq.append(" ".join(["c02ser10", str(len(ttts))] + fl(ttts) + [str(len(t52))]
@@ -1283,7 +1512,8 @@ def correspondence(ctx):
         sc = v.sc
         htoks = [str(len(sc.ohist))] + [str(x) for h in sc.ohist for x in h]
         etoks = [str(len(v.ex))] + [t for c, p, m in v.ex for t in [str(c), str(p)] + fl(np.asarray(m).flatten())]
-        chist = [(3, 0)] + sc.chist
+        etoks += [str(len(v.lofs))] + [t for c, p, tnw, g, pv, own in v.lofs for t in [str(c), str(p), str(tnw), str(g)] + fl(pv) + (["1"] + v.D(ser80, ser10, sc.epoch_t, sc.epoch_rec) if own else ["0"])]
+        chist = sc.chist_full
         ctoks = [str(len(chist))] + [str(x) for h in chist for x in h] + [str(len(v.cl))] + [t for c, (par, o, off) in v.cl.items() for t in [str(c), str(par), str(o)] + fl(off)]
         for fa, fb, res in v.conv:
             reqs.append(" ".join(["c02conv"] + D + htoks + etoks + [str(fa[1]), str(fb[1])]))
@@ -1296,12 +1526,18 @@ def correspondence(ctx):
             else:
                 scale_p = max(np.abs(sa[:3]).max(), np.abs(res[:3]).max(), 7e6)
                 post.append(("transform", inp, res, 1e-10, ("pv", 1e-9 * scale_p, 1e-9 * scale_p * 1e-3)))
+    # iau1980.nutation(date) with the EOP corrections of the record (the tail of _nutation, translated from the source)
+    rows106 = [str(len(t51))] + [t for r in t51 for t in fl(r)]
+    for v in visits + seq:
+        reqs.append(" ".join(["c02nutc"] + rows106 + fl([v.t["ttt"], v.rec["dpsi"], v.rec["deps"]])))
+        post.append(("nutation-corrected", {"eop": v.mode, "date": v.text, "history": v.kind, "record": v.rec}, list(np.asarray(v.lib_nutc).flatten()), 1e-10, 1e-13))
+        out.count(key=("nutc", v.mode, v.text), kind="nutation-eop-corrected", history=v.kind)
     # the mixed TAI-UTC history: one request, the memo inside the model
     sc = seq[0].sc
     lat, lon = math.radians(sc.latlonalt[0]), math.radians(sc.latlonalt[1])
-    line = ["c02seq", str(len(sc.ohist))] + [str(x) for h in sc.ohist for x in h] + ["1", "10", str(sc.ITRF)] + fl(np_topo(lat, lon).flatten())
+    line = ["c02seq"] + rows106 + [str(len(sc.ohist))] + [str(x) for h in sc.ohist for x in h] + ["1", "10", str(sc.ITRF)] + fl(np_topo(lat, lon).flatten())
     calls = [(v, fa, fb, res) for v in seq for fa, fb, res in v.conv]
-    line += [str(len(calls))] + [t for v, fa, fb, res in calls for t in [str(v.text_id)] + v.D(ser80, ser10) + [str(fa[1]), str(fb[1])]]
+    line += [str(len(calls))] + [t for v, fa, fb, res in calls for t in v.D(ser80, ser10) + [str(fa[1]), str(fb[1])]]
     reqs.append(" ".join(line))
     post.append(("sequence", calls, None, 1e-10, 1e-13))
     replies = drv.run(reqs)
@@ -1319,7 +1555,7 @@ def correspondence(ctx):
                     if one != ["E"]:
                         out.fail("model-sequence", "the implementation " + res + " where the model converts", cinp, observed=res, expected="a matrix")
                     continue
-                cmp_floats(out, "model-sequence", "Orientation.convert_to inside a history of calls (model: sessionRun with the _nutation memo)", cinp, res, " ".join(one), rtol=rtol, atol=atol)
+                cmp_floats(out, "model-sequence", "Orientation.convert_to inside a history of calls (model: sessionRun with the _nutation_series memo)", cinp, res, " ".join(one), rtol=rtol, atol=atol)
             continue
         if isinstance(real, str):
             # the implementation raised where the model (the specification of the frame graph) yields a value
